@@ -45,10 +45,13 @@ INVALID = [b"\x80\x81", b"\x81\xff\x80", b"\xff\x81\x80\xa0\x81", b"\x81\x80\x90
 
 
 def anchors():
-    import simfile
+    from ..core import pick
 
-    return {"open": simfile.open, "open_with_detected_encoding": simfile.open_with_detected_encoding,
-            "mutate": simfile.mutate.__wrapped__}
+    return pick(
+        "simfile:open",
+        "simfile:open_with_detected_encoding",
+        "simfile:mutate",
+    )
 
 
 def ref_detect(data, tried):
